@@ -14,7 +14,7 @@ def hosts_upto(labels, depth):
     return out
 
 
-FORMS = ["bare", "http", "full", "slashes", "auth", "upper", "split"]
+FORMS = ["bare", "http", "full", "slashes", "auth", "upper", "split", "bare-embedded"]
 
 
 def embed(h, form):
@@ -32,6 +32,8 @@ def embed(h, form):
         return "HTTP://" + h.upper() + "/P"
     if form == "split":
         return std_urlsplit("http://" + h + "/p")
+    if form == "bare-embedded":
+        return h + "/r?to=https://zzz.example/#!http://x"
     raise ValueError(form)
 
 
@@ -122,8 +124,8 @@ def explore(chk):
     S = all_specs()
     quick = chk.tier == "quick"
     for name in ("closure-ab3", "closure-abc2"):
-        st = hist.closure(S[name], chk, name)
-        if not st["complete"]:
+        st = hist.closure(S[name], chk, name, max_states=20000)
+        if not st["complete"] and not chk.witnesses:
             raise core.Harness("closure did not complete: %r" % st)
     ex = chk.cov["exhaustive"]
     hist.closure(S["bounded-abc3"], chk, "bounded-abc3", max_depth=3 if quick else 4, max_states=10 ** 7)
